@@ -261,7 +261,7 @@ def SText.fits (lim : Limits) (t : SText) : Prop := t.v.fits lim 0
 
 /-! ### which values the round-trip statement J2 speaks about -/
 
-/-- What J2/J3 assume about libc's `snprintf("%.*g")` / `strtod` pair — nothing else about floating point is assumed; the logic of
+/-- What J2/J3 assume about libc's `std::to_chars(general, precision)` (the `%.*g` text) / `detail::jsonToDouble` (`strtod`) pair — nothing else about floating point is assumed; the logic of
     `Json::_formatDouble` (precision loop, `.0` suffix) is proved on top of these four facts (`formatDouble_roundtrips`):
     * `shape`: for the precisions the loop tries, `%.{p}g` of a finite double is a JSON number token (`-?int[.frac][e±exp]`);
     * `exactHi`: the text with the LAST precision tried (17 significant digits) reads back as the same double;
@@ -272,8 +272,8 @@ structure LibcOk (ops : FloatOps) : Prop where
   shape : ∀ p d, Gen.Json.fmtPrecLo ≤ p → p ≤ Gen.Json.fmtPrecHi → isFiniteBits d = true →
     ∃ n : SNum, n.ok ∧ n.render = ops.printfG p d
   exactHi : ∀ d, isFiniteBits d = true → ops.strtod (ops.printfG Gen.Json.fmtPrecHi d) = d
-  zeroSign : ∀ p d, isZeroBits d = true → isZeroBits (ops.strtod (ops.printfG p d)) = true →
-    ops.strtod (ops.printfG p d) = d
+  zeroSign : ∀ p d, Gen.Json.fmtPrecLo ≤ p → p ≤ Gen.Json.fmtPrecHi → isZeroBits d = true →
+    isZeroBits (ops.strtod (ops.printfG p d)) = true → ops.strtod (ops.printfG p d) = d
   dotZero : ∀ n : SNum, n.ok → n.isFloat = false →
     ops.strtod (n.render ++ Gen.Json.fmtSuffix.map b8) = ops.strtod n.render
 
